@@ -995,7 +995,9 @@ class _ListFilter(t.Generic[T]):
         try:
             value = self.extract_key(element)
         except AttributeError:
-            return False
+            # an element without the attribute does not have the value:
+            # it belongs to the "exclude" side, never to both or neither
+            return not self._positive
 
         if isinstance(value, str) or not isinstance(value, cabc.Iterable):
             return self._positive == (value in valueset)
